@@ -638,6 +638,21 @@ impl StorageEngine {
         Ok(result_id)
     }
     
+    /// Restore a stream's last ID when a dump is loaded: the key is created (as an empty stream)
+    /// if the dump held no entry for it, and the last ID only ever moves up.
+    pub fn xrestore_last_id(&self, db: DatabaseIndex, key: Key, id: StreamId) -> Result<()> {
+        if !self.exists(db, &key)? {
+            self.set_value(db, key.clone(), Value::empty_stream(), None)?;
+        }
+        let shard = self.get_shard(db, &key)?;
+        let shard_guard = shard.read().unwrap();
+        match shard_guard.data.get(&key).map(|stored| &stored.value) {
+            Some(Value::Stream(stream)) => { stream.raise_last_id(id); Ok(()) }
+            Some(_) => Err(StorageError::WrongType.into()),
+            None => Ok(()),
+        }
+    }
+    
     /// Get entries from a stream in a range of IDs
     pub fn xrange(&self, db: DatabaseIndex, key: &[u8], start: StreamId, end: StreamId, count: Option<usize>) -> Result<Vec<StreamEntry>> {
         let shard = self.get_shard(db, key)?;
